@@ -1411,6 +1411,28 @@ fn fam_listidx(_func: Option<&str>, only: Option<u64>) {
             }
         }
     }
+    // excluded index sets (`Exclude<number, 0 | 2>`): every position not listed, and always the rest type
+    for (pre, rest) in &shapes {
+        for ix in &index_sets {
+            if !rep.want() { continue; }
+            let mut ctx = SemTypeContext::new();
+            let t = Rc::new(ctx.tuple(pre.iter().map(|b| Rc::new(SemType::new_basic(basics[*b].code()))).collect(), rest.map(|b| Rc::new(SemType::new_basic(basics[b].code())))));
+            let mut expect_bits = 0u32;
+            for i in 0..pre.len() { if !ix.contains(&(i as i64)) { expect_bits |= basics[pre[i]].code(); } }
+            if let Some(r) = rest { expect_bits |= basics[*r].code(); }
+            let expected = Rc::new(SemType::new_basic(expect_bits));
+            let idx_t = Rc::new(SemType::new_complex(0, vec![Rc::new(ProperSubtype::Number { allowed: false, values: ix.iter().map(|i| num(*i)).collect() })]));
+            let descr = format!("tuple (prefix, rest) = ({:?}, {:?}) over [string, number, boolean], indexed by number except {:?}", pre, rest, ix);
+            match ctx.indexed_access(t, idx_t) {
+                Ok(r) => match r.is_same_type(&expected, &mut ctx) {
+                    Ok(true) => {}
+                    Ok(false) => rep.fail(descr, format!("indexed access = {:?}", r), format!("{:?} (the item types at the indices not excluded, and the rest type)", expected)),
+                    Err(e) => rep.fail(descr, format!("is_same_type Err({})", e), "true".into()),
+                },
+                Err(_) => {}
+            }
+        }
+    }
     rep.print();
 }
 
